@@ -93,3 +93,110 @@ def install(w):
 
     H["os._Environ.get"] = environ_get
     w.classes.add(type(os.environ))
+
+
+def install_more(w):
+    """pathlib, string.Template, connector errors, module-level mutable attributes"""
+    import pathlib
+    from string import Template
+
+    import snowflake.connector
+    import snowflake.connector.errors as sferr
+
+    H = w.handlers
+    for c in (pathlib.PurePath, pathlib.Path, pathlib.PosixPath, Template):
+        w.classes.add(c)
+    w.symbolic_module_attrs[("snowflake.connector", "paramstyle")] = str
+
+    PATHJOIN = z3.Function("path_join", S, S, S)
+
+    def path_new(ex, st, cls, args, kw, node):
+        (x,) = args
+        p = ex.new_object(st, pathlib.PosixPath, pathlib.Path)
+        st.heap["$pathstr"] = z3.Store(st.arr("$pathstr"), V.rid(p.t), mks(ex.str_of(st, x, node)))
+        return p
+
+    H["pathlib.PurePath.__new__*"] = path_new
+
+    def path_div(ex, st, args, kw, node):
+        a, b = args
+        oid = ex.as_ref(st, a, node)
+        p = ex.new_object(st, pathlib.PosixPath, pathlib.Path)
+        st.heap["$pathstr"] = z3.Store(st.arr("$pathstr"), V.rid(p.t), mks(PATHJOIN(V.sval(st.arr("$pathstr")[oid]), ex.str_of(st, b, node))))
+        return p
+
+    H["pathlib.Path.__truediv__"] = path_div
+    w.str_handlers[pathlib.PurePath] = lambda ex, st, v: V.sval(st.arr("$pathstr")[V.rid(v.t)])
+    w.schemas[pathlib.PurePath] = ClassSchema(pathlib.PurePath, fields={})
+
+    # string.Template.substitute on a module-level Template constant: exact substitution of ${name}
+    def template_substitute(ex, st, args, kw, node):
+        t = args[0]
+        if not isinstance(t.py, Template):
+            raise Unsupported("Template.substitute on a non-constant template", node)
+        text = t.py.template
+        pieces = re.split(r"\$\{(\w+)\}", text)
+        terms, parts = [], []
+        for i, p in enumerate(pieces):
+            if i % 2 == 0:
+                if p:
+                    terms.append(z3.StringVal(p))
+                    parts.append(p)
+            else:
+                if p not in kw:
+                    raise Unsupported(f"Template.substitute missing {p}", node)
+                terms.append(ex.str_of(st, kw[p], node))
+                parts.append(kw[p])
+        out = Val(mks(z3.Concat(terms) if len(terms) > 1 else terms[0]), str, parts=parts)
+        out.py = None
+        return out
+
+    H["string.Template.substitute"] = template_substitute
+
+    # snowflake.connector.errors.*: Error(msg=, errno=, sqlstate=) stores its keyword arguments (A-SFC)
+    w.classes.add_tree(sferr.Error)
+    w.schemas[sferr.Error] = ClassSchema(sferr.Error, fields={"msg": Opt(str), "errno": Opt(int), "sqlstate": Opt(str)})
+
+    def sf_error_new(ex, st, cls, args, kw, node):
+        e = ex.new_object(st, cls)
+        oid = V.rid(e.t)
+        vals = {"msg": w.const(None), "errno": w.const(-1), "sqlstate": w.const(None)}
+        names = ["msg", "errno", "sqlstate"]
+        for n_, a in zip(names, args):
+            vals[n_] = a
+        for k, v in kw.items():
+            vals[k] = v
+        for k, v in vals.items():
+            st.heap[k] = z3.Store(st.arr(k), oid, v.t)
+        return e
+
+    H["snowflake.connector.errors.Error.__new__*"] = sf_error_new
+
+    from pyvc.world import SpecFun
+
+    def _db_file(ex, st, args):
+        """f"{Path(db_path)/name}.db" if db_path else ":memory:"  -- the file a database lives in (C14.file, C18)"""
+        p, name = args
+        joined = z3.Concat(PATHJOIN(ex.str_of(st, p), V.sval(name.t)), z3.StringVal(".db"))
+        return Val(mks(z3.If(ex.truthy(st, p), joined, z3.StringVal(":memory:"))), str)
+
+    w.specfuns["db_file"] = SpecFun("db_file", _db_file)
+
+    def _connector_paramstyle(ex, st, args):
+        return Val(z3.Const("G_snowflake.connector.paramstyle", V), str)
+
+    w.specfuns["connector_paramstyle"] = SpecFun("connector_paramstyle", _connector_paramstyle)
+
+    # SQL text builders of the repo whose meaning is DuckDB's (A-DUCK 3): tagged so that execute() recognises them
+    def _creation_sql(kind):
+        def h(ex, st, args, kw, node):
+            (cat,) = args
+            out = Val(mks(ex.fresh(f"{kind}_creation_sql", S)), str)
+            w.sql_tags[out.t.get_id()] = (kind, cat)
+            w._keep = getattr(w, "_keep", []) + [out.t]
+            return out
+
+        return h
+
+    H["fakesnow.info_schema.creation_sql"] = _creation_sql("info_schema")
+    H["fakesnow.macros.creation_sql"] = _creation_sql("macros")
